@@ -183,7 +183,7 @@ theorem C05_xonsh_partial (m : Meta) (v : RawValue)
     (xonshRecs m [v]).map (·.insert) =
       [san Gen.xonsh_sanitizer v.value ++
         (if SuffixMatcher.matchesStr m.nospace (san Gen.xonsh_sanitizer v.value) then [] else [' '])] := by
-  simp only [xonshRecs, List.map_cons, List.map_nil, hq, Bool.false_eq_true, if_false]
+  simp only [xonshRecs, xonshQuote, List.map_cons, List.map_nil, hq, Bool.false_eq_true, if_false]
   by_cases h : SuffixMatcher.matchesStr m.nospace (san Gen.xonsh_sanitizer v.value) = true <;> simp [h]
 
 /-! ### bash: the flag is global -/
